@@ -6,7 +6,8 @@ from lib import SPEC
 BASE2 = {"CertKeys": '{"k1","k2"}', "EncKeys": '{"e1","e2"}', "Nonces": '{"n1","n2"}', "Tokens": '{"t1","t2"}',
          "AppStates": '{"s1"}', "NodeIds": '{"N1"}'}
 BASE3 = dict(BASE2, CertKeys='{"k1","k2","k3"}')
-BASE3S = dict(BASE3, AppStates='{"s1","s2"}')
+BASE3S = dict(BASE3, AppStates='{"s1","s2"}', NodeIds='{"N1","N10"}')
+BASE3N = dict(BASE3, NodeIds='{"N1","N10"}')      # node ids one of which is a prefix of the other
 
 
 def gen_cfg(name, consts, classes, depth, sw=False, nidl=False, fallback="FetchAny", so=False, be="inmem"):
@@ -99,7 +100,7 @@ FAMILY = dict(
           dict(quick=120, thorough=2500), ["C05"], nidl=True),
         G("C05b", BASE3, ["Authorize", "Nid", "Remove", "GenCerts", "GenNear", "KeyKind"], 10,
           dict(quick=60, thorough=1000), ["C05"], nidl=False),
-        G("C05d", BASE3, ["Authorize", "Nid", "Remove", "Remove", "GenCerts", "GenNear"], 12,
+        G("C05d", BASE3N, ["Authorize", "Nid", "Nid", "Remove", "GenCerts", "GenNear", "GenNear"], 12,
           dict(quick=40, thorough=800), ["C05"], nidl=True, so=True),
         G("C05c", BASE3, ["Authorize", "Nid", "Remove", "GenCerts", "GenNear"], 10,
           dict(quick=50, thorough=1000), ["C05"], nidl=True, nide=True),
